@@ -166,6 +166,7 @@ def units():
 
 
 META = dict(
+    technique='CBMC 6.11 function contracts (dfcc) with exact reference-count ghost state and an atomic-discipline counter',
     level="proof",
     level_text="Per-operation delta contracts over a world of two reference-counted objects and arbitrary handles (null / o1 / o2, aliased or not, including self-assignment): every IntrusivePtr constructor, destructor and assignment changes each object's count by exactly (handles pointing at it afterwards) - (before), an object is marked destroyed exactly when its count reaches zero and never while a reference remains (every operation on an object requires it to be alive, so destroying it before the last use inside one operation fails a callee precondition), for all counts up to 10^6. refInc/refDec each perform exactly one atomic read-modify-write and refDec decides on that operation's own result. By induction over operations this is useCount == creator's reference + live handles after every history. Comparison operators <=> pointer equality.",
     level_note="Sequential contracts: the atomic counter is modelled with single-thread semantics plus a discipline check (one RMW per refInc/refDec); that this suffices under real concurrency is the usual atomic-counter argument and is NOT proved. `delete this` is modelled by a ghost dead flag (storage kept) so that later uses are detected rather than undefined. Two objects, two handles per operation; more are covered by symmetry / induction (stated, not mechanised).",
